@@ -268,8 +268,9 @@ static void parse_args(int argc,char**argv){ params=new std::map<std::string,std
     else if(a=="-p"){ std::string kv=next(); size_t e=kv.find('='); if(e==std::string::npos) (*params)[kv]="1"; else (*params)[kv.substr(0,e)]=kv.substr(e+1); }
     else { fprintf(stderr,"unknown option %s\n",a.c_str()); exit(2); } }
   if(O.jobs<1) O.jobs=1; if(O.jobs>64) O.jobs=64; }
-extern "C" int vf_mode_hb(){ return params && params->count("hb"); }
-extern "C" int vf_mode_tso(){ return params && params->count("tso"); }
+// -1 = command line not parsed yet (static initialisers of the code under test run atomics before main): callers must not cache that
+extern "C" int vf_mode_hb(){ return params ? (int)params->count("hb") : -1; }
+extern "C" int vf_mode_tso(){ return params ? (int)params->count("tso") : -1; }
 
 static bool is_bad(int st){ return st==R_VIOLATION||st==R_DEADLOCK||st==R_LIVELOCK||st==R_HANG||st==R_CRASH||st==R_TIMEOUT; }
 
